@@ -25,6 +25,7 @@ struct Script {
   int n_warn = 0;            // ReportResults adds this many different warnings (AddWarning)
   int abort_code = -1;       // >= 0: Solve() ends with StdBackend::Abort(code, ...) (a result delivered by exception)
   int poll_stop = 0;         // poll interrupter this many times in Solve
+  std::string sig_where; int sig_no = 0, sig_n = 0;   // sig <options|solve|report> <INT|TERM> <n>: raise the signal n times there
   /// a history of direct value transfers to perform on the converted model (C04):
   /// each = direction, kind, variable values, constraint values per group
   struct Xfer { std::string dir, kind; std::vector<double> vars; std::map<int, std::vector<double>> cons; };
@@ -48,7 +49,7 @@ public:
 
   void InitCustomOptions() override;
   void InitOptionParsing() override { Ev("InitOptionParsing"); }
-  void FinishOptionParsing() override { Ev("FinishOptionParsing"); }
+  void FinishOptionParsing() override { Ev("FinishOptionParsing"); RaiseAt("options"); }
 
   USING_STD_FEATURES;
   ALLOW_STD_FEATURE(MULTIOBJ, true)
@@ -71,6 +72,8 @@ public:
   ALLOW_STD_FEATURE(RAYS, true)
   ArrayRef<double> Ray() override { Ev("Ray"); return std::vector<double>(lp()->nvars, 1.0); }
   ArrayRef<double> DRay() override { Ev("DRay"); return std::vector<double>{}; }
+  ALLOW_STD_FEATURE(WRITE_PROBLEM, true)
+  void DoWriteProblem(const std::string &name) override;
   ALLOW_STD_FEATURE(IIS, true)
   void ComputeIIS() override { Ev("ComputeIIS"); }
   IIS GetIIS() override;
@@ -87,6 +90,7 @@ protected:
   pre::ValueMapDbl DualSolution() override;
   void ReportResults() override;
   void RunHistory();
+  void RaiseAt(const char *where);
 
   void Ev(const char *name);
   void EvInts(const char *name, ArrayRef<int> v);
